@@ -517,6 +517,9 @@ func (i *IPv6HopByHop) SerializeTo(b gopacket.SerializeBuffer, opts gopacket.Ser
 	if length%8 != 0 {
 		return errors.New("IPv6HopByHop actual length must be multiple of 8")
 	}
+	if length > 2048 {
+		return errors.New("IPv6HopByHop options do not fit the 8 bit header extension length")
+	}
 	bytes, err = b.PrependBytes(2)
 	if err != nil {
 		return err
@@ -750,6 +753,9 @@ func (i *IPv6Destination) SerializeTo(b gopacket.SerializeBuffer, opts gopacket.
 	length := len(bytes) + 2
 	if length%8 != 0 {
 		return errors.New("IPv6Destination actual length must be multiple of 8")
+	}
+	if length > 2048 {
+		return errors.New("IPv6Destination options do not fit the 8 bit header extension length")
 	}
 	bytes, err = b.PrependBytes(2)
 	if err != nil {
